@@ -11,7 +11,7 @@ if log and os.path.exists(log):
         if m:
             det[m.group(3)] = (m.group(1), m.group(4).strip())
 blind = {}
-for bt in [os.path.join(root, 'seeded', 'round2_blind.tsv'), os.path.join(root, 'seeded', 'round3_blind.tsv')]:
+for bt in [os.path.join(root, 'seeded', 'round2_blind.tsv'), os.path.join(root, 'seeded', 'round3_blind.tsv'), os.path.join(root, 'seeded', 'round4_blind.tsv')]:
   if os.path.exists(bt):
     for line in open(bt):
           if line.startswith('#') or line.startswith('id\t') or not line.strip():
@@ -33,7 +33,7 @@ for d in sorted(os.listdir(os.path.join(root, 'seeded'))):
     meta = {
         'id': d,
         'property': a.get('property', d.split('-')[0]),
-        'round': int(re.search(r'-([23])[AB]$', d).group(1)) if re.search(r'-[23][AB]$', d) else 1,
+        'round': int(re.search(r'-([2-9])[AB]$', d).group(1)) if re.search(r'-[2-9][AB]$', d) else 1,
         'written_by': 'fresh sub-agent given only the property text and a scratch worktree of /repo',
         'summary': a.get('summary'),
         'why_it_breaks': a.get('why_it_breaks'),
